@@ -98,7 +98,7 @@ func (m *Model) extractPratt() *prattModel {
 				return true
 			}
 			for i, name := range vs.Names {
-				if name.Name != "precedences" || i >= len(vs.Values) {
+				if canonVarName("parser", name.Name) != "precedences" || i >= len(vs.Values) {
 					continue
 				}
 				cl, ok := vs.Values[i].(*ast.CompositeLit)
@@ -1326,7 +1326,7 @@ func (m *Model) globalMapWritten(pkg, name string) string {
 				if ld, ok := target.(*ssa.UnOp); ok && ld.Op == token.MUL {
 					target = ld.X
 				}
-				if g, ok := target.(*ssa.Global); ok && g.Name() == name && shortPkg(g.Pkg.Pkg.Path()) == pkg {
+				if g, ok := target.(*ssa.Global); ok && canonGlobalName(g) == name && shortPkg(g.Pkg.Pkg.Path()) == pkg {
 					return m.InstrPos(in)
 				}
 			}
